@@ -1,5 +1,6 @@
 #!/bin/sh
 # usage: tools/seed_eval.sh <CXX> <dir-with-changeK.diff/demoK.py/metaK.json> <K> [tier]
+# The saved-input corpus is switched off by default here (VERIF_NO_CORPUS=1): the point is what the SEARCH finds; VERIF_NO_CORPUS=0 to include it.
 # Verifies a seeded change (demo passes on /repo, fails on patched copy, baseline tests still pass) and runs the registered check against it.
 P=$1; SRC=$2; K=$3; T=${4:-quick}
 D=$(mktemp -d /tmp/seval.XXXXXX)
@@ -23,6 +24,6 @@ print(f"tests_missing_from_baseline={len(b - passed)}")
 PY
   rm -f "$X"
 fi
-MOUETTE_REPO="$D" VERIF_OUT_DIR="$D/out" /venv/bin/python check.py "$P" "$T" $CHECK_ARGS > "$D/log" 2>&1
+VERIF_NO_CORPUS=${VERIF_NO_CORPUS:-1} MOUETTE_REPO="$D" VERIF_OUT_DIR="$D/out" /venv/bin/python check.py "$P" "$T" $CHECK_ARGS > "$D/log" 2>&1
 grep -E "VIOLATION|signature=|exit=|HARNESS" "$D/log" | head -6
 rm -rf "$D"
